@@ -129,8 +129,8 @@ theorem copy2_writes (src dst : Str) (cs : List Bytes) :
   simp only [copy2, List.mem_append, List.mem_cons, List.mem_map, List.not_mem_nil, or_false] at hs
   rcases hs with ((rfl | rfl) | ⟨c, _, rfl⟩) | (rfl | rfl | rfl) <;> simp [Step.writes]
 
-theorem backupSteps_writes (fs : FS) (t : Str) (oc : List Bytes) :
-    ∀ s ∈ backupSteps fs t oc, s.writes = none ∨ s.writes = some (bakOf t) := by
+theorem backupSteps_writes (saw : Bool) (t : Str) (oc : List Bytes) :
+    ∀ s ∈ backupSteps saw t oc, s.writes = none ∨ s.writes = some (bakOf t) := by
   intro s hs
   simp only [backupSteps, List.mem_append, List.mem_cons, List.not_mem_nil, or_false] at hs
   rcases hs with (rfl | h) | h
@@ -159,7 +159,7 @@ theorem openW_copy2 (src dst : Str) (cs : List Bytes) (st : List Str) :
     openWFrom st (copy2 src dst cs) = st.filter (fun q => q ≠ dst) := by
   simp [copy2, openWFrom, openWFrom_append, openWFrom_appends]
 
-theorem openW_backupSteps (fs : FS) (t : Str) (oc : List Bytes) : openW (backupSteps fs t oc) = [] := by
+theorem openW_backupSteps (saw : Bool) (t : Str) (oc : List Bytes) : openW (backupSteps saw t oc) = [] := by
   unfold openW backupSteps
   rw [openWFrom_append, openWFrom_append, openW_copy2]
   split <;> simp [openWFrom]
@@ -180,8 +180,8 @@ theorem run_copy2 (fs : FS) (src dst : Str) (cs : List Bytes) :
 
 /-- The backup block leaves a complete copy of the pre-image in the backup file, whatever the
 backup path held before. -/
-theorem run_backupSteps (fs : FS) (t : Str) (oc : List Bytes) :
-    run fs (backupSteps fs t oc) (bakOf t) = some oc.flatten := by
+theorem run_backupSteps (fs : FS) (saw : Bool) (t : Str) (oc : List Bytes) :
+    run fs (backupSteps saw t oc) (bakOf t) = some oc.flatten := by
   unfold backupSteps
   rw [run_append]
   exact run_copy2 _ _ _ _
